@@ -6,7 +6,10 @@ From Coq Require Import NArith List Bool Arith Lia Permutation Sorted.
 From CL Require Import Base.Sx Base.Res Base.Str Model.AddRemove Model.Merge Generated.C04Facts
   Model.Entry Model.ParseFormats
   Proofs.MergeProofs Proofs.MergeReparse Proofs.MergeRefuted
-  Proofs.C02BlocksRx Proofs.C02BlocksVal Proofs.C02Blocks Proofs.MergeReparseProps.
+  Proofs.C02BlocksRx Proofs.C02BlocksVal Proofs.C02Blocks Proofs.MergeReparseShared
+  Proofs.MergeReparseProps.
+From CL Require Proofs.C02BlocksIniRx Proofs.C02BlocksIni Proofs.MergeReparseIni
+  Proofs.C02BlocksDtdRx Proofs.C02BlocksDtdPeRx Proofs.C02BlocksDtd Proofs.MergeReparseDtd.
 Import ListNotations.
 Local Open Scope nat_scope.
 
@@ -162,15 +165,23 @@ Theorem C04_raises_only : forall caps contents (skips : list skip) missing refs 
 Proof. exact (merge_raises_only_by_sort_or_lookup keqb). Qed.
 
 (* ---- C04_reparse_partial ------------------------------------------------------
-   PARTIAL (all formats but .properties, for which see C04_reparse_properties
-   below): the re-parse clause ("the staged file compares again with no junk,
-   nothing missing") relative to a block-compositional parser: [parse_blocks]
-   (the per-format block theorem of C02; it exists for .properties only) is a
-   premise.  The localization is a list of blocks, the flagged ones being the
-   skips; the staged text then parses as the unflagged blocks, a newline, and
-   the newline-terminated reference texts of the missing keys and of the
-   flagged non-junk blocks.  The harness checks the clause on the
-   implementation for every format by comparing the staged file again. *)
+   What is left of the re-parse clause after C04_reparse_properties,
+   C04_reparse_ini and C04_reparse_dtd (below), which prove it for the three
+   mergeable formats from the block theorems of C02:
+   - .inc is not mergeable (caps_inc = CAN_COPY, C04_format_classes): the staged
+     file is a byte copy of the localization if it is clean, else of the
+     reference (C04_copy_only); re-parsing it is re-parsing one of the inputs;
+   - Fluent, PO and Android are skip-only (no CAN_MERGE): nothing is appended
+     (C04_skip_only), the clause says only that the staged text - the
+     localization without the skipped spans - parses to the kept entries with no
+     junk.  For them, and for whatever a future block theorem covers, the clause
+     is stated relative to a block-compositional parser: [parse_blocks] is a
+     PREMISE (C04_reparse_partial with appended reference texts,
+     C04_reparse_skip_only_partial without).  The localization is a list of
+     blocks, the flagged ones being the skips.  Android never satisfies it for a
+     non-empty skip list (its entities have no spans: C04_android_refuted).
+   The harness checks the clause on the implementation for every format by
+   comparing the staged file again. *)
 Theorem C04_reparse_partial :
   forall (E : Type) (parse entries : str -> list E) (legal : list str -> Prop),
   (forall ts, legal ts -> parse (concat ts) = flat_map entries ts) ->
@@ -184,6 +195,17 @@ Theorem C04_reparse_partial :
     parse t = flat_map entries (kept_texts bs) ++ entries [10%N] ++
               flat_map entries (map ensure_newline (ms ++ ss)).
 Proof. intros E parse entries legal H. exact (reparse_blocks keqb parse entries legal H). Qed.
+
+Theorem C04_reparse_skip_only_partial :
+  forall (E : Type) (parse entries : str -> list E) (legal : list str -> Prop),
+  (forall ts, legal ts -> parse (concat ts) = flat_map entries ts) ->
+  forall caps (bs : list (blk (K := K))) missing refs,
+  has caps can_copy = false -> has caps can_skip = true -> has caps can_merge = false ->
+  existsb flagged bs = true ->
+  legal (kept_texts bs) ->
+  exists t, merge keqb true caps (l10n_text bs) (block_skips 0 bs) missing refs = Ok (Write t) /\
+    parse t = flat_map entries (kept_texts bs).
+Proof. intros E parse entries legal H. exact (reparse_blocks_skip_only keqb parse entries legal H). Qed.
 
 End C04.
 
@@ -446,4 +468,214 @@ Example C04_reparse_properties_example :
        filter (is_kind KJunk) es'))
   = Ok ([([97%N], [49%N], Some [35;32;99;49]%N); ([99%N], [120;92;10;32;121]%N, None);
          ([100%N], [52%N], Some [33;100]%N); ([98%N], [37;83]%N, None)], []).
+Proof. cbv zeta. repeat split; vm_compute; reflexivity. Qed.
+
+(* ==== C04_reparse_ini ===============================================================
+   The re-parse clause for .ini, same shape as C04_reparse_properties, from
+   C02BlocksIni.blocks_ini / roundtrip_ini_multi.  [bs]: the localization as a legal
+   block list (section headers, entities key=value with attached ; or # comment lines,
+   standalone comments, blank runs); skips: any permutation of the selected entities of
+   its own parse with that parse's spans (key=value without attached comment and final
+   newline - the block-boundary premise); [abs]: the appended reference entities, legal
+   entity blocks (their text never ends in a newline: an ini value has none).  The staged
+   text is the text of the legal, separated block list [imerged_blocks]: section headers
+   stay where they are, a skipped entity leaves its comment and newline, the appended
+   entities come last, i.e. in the last section; its parse has exactly the unselected
+   entities unchanged in order, then the reference entities, the same section headers,
+   no junk.
+   Premises beyond legality, both with a witness:
+   - [ilic 0] of the result: the ini License rule looks at offsets 0 and 1, removing the
+     first entity can move a commented entity there (C04_reparse_ini_license_needed);
+     free for files that start with a section header (C04_reparse_ini_sectioned);
+   - junk is outside the block grammar: the listed finding
+     ini-junk-after-section-joins-comment-line (C04_reparse_ini_junk_refuted). *)
+Import C02BlocksIniRx C02BlocksIni MergeReparseIni.
+
+Theorem C04_reparse_ini :
+  forall (bs abs : list iblock) (sel : str -> bool) (missing : list str)
+         (refs : list (str * str)) (es : list entry) (skips : list (Merge.skip (K := str))),
+  Forall legal_iblock bs -> iadjacent_ok bs ->
+  walk_ini (ifile_text bs) = Ok es ->
+  Permutation skips (parse_skips sel (ifile_text bs) es) ->
+  Forall ilegal_ref abs ->
+  map_result (ref_all str_eqb refs) (missing ++ filter sel (map irkey (irecords_of bs)))
+    = Ok (map ientity_all abs) ->
+  ilic 0 (imerged_blocks sel bs abs) = true ->
+  exists a t out es',
+    merge str_eqb true caps_ini (ifile_text bs) skips missing refs = Ok a /\
+    staged_text (ifile_text bs) a = Some t /\
+    out = (if nonempty skips || nonempty missing then imerged_blocks sel bs abs else bs) /\
+    t = ifile_text out /\ Forall legal_iblock out /\ iadjacent_ok out /\
+    walk_ini t = Ok es' /\
+    map (entity_record t) (filter (is_kind KEntity) es') =
+      filter (fun r => negb (sel (irkey r))) (irecords_of bs) ++ irecords_of abs /\
+    map (fun e => opt_text t (e_val e)) (filter (is_kind KSection) es') = isections_of bs /\
+    filter (is_kind KJunk) es' = [].
+Proof. exact reparse_ini. Qed.
+
+Theorem C04_reparse_ini_sectioned : forall sel bs abs,
+  starts_with_section bs = true -> ilic 0 (imerged_blocks sel bs abs) = true.
+Proof. exact ilic_imerged_sectioned. Qed.
+
+(*  b=1 / # License / k=v , b selected: the premise fails and the attached comment of the
+   kept entity k is lost (it becomes a standalone comment at offset 1) *)
+Theorem C04_reparse_ini_license_needed :
+  exists (bs : list iblock) (sel : str -> bool) refs t,
+    Forall legal_iblock bs /\ iadjacent_ok bs /\
+    ilic 0 (imerged_blocks sel bs []) = false /\
+    irecords_of bs = [([98%N], [49%N], None);
+                      ([107%N], [118%N], Some [35; 32; 76; 105; 99; 101; 110; 115; 101]%N)] /\
+    (do a <- merge str_eqb true caps_ini (ifile_text bs)
+               (parse_skips sel (ifile_text bs) (ientries_of bs)) [] refs;
+     match staged_text (ifile_text bs) a with
+     | Some t => do es <- walk_ini t;
+                 Ok (t, map (entity_record t) (filter (is_kind KEntity) es), has_junk es)
+     | None => Raise AssertionError
+     end) = Ok (t, [([107%N], [118%N], None); ([98%N], [50%N], None)], false).
+Proof.
+  exists [il_b; il_k], (str_eqb [98%N]), [([98%N], [98; 61; 50]%N)],
+    [10; 35; 32; 76; 105; 99; 101; 110; 115; 101; 10; 107; 61; 118; 10; 10; 98; 61; 50; 10]%N.
+  split; [repeat constructor|]. repeat split; vm_compute; reflexivity.
+Qed.
+
+(* the listed finding: junk behind a section header; the parse of the staged text has
+   junk again (the spans are those of the parse of the localization) *)
+Theorem C04_reparse_ini_junk_refuted :
+  exists (l10n staged : str) (junk : nat * nat),
+    (do es <- walk_ini l10n; Ok (map e_span (filter (is_kind KJunk) es))) = Ok [junk] /\
+    (do a <- merge str_eqb true caps_ini l10n
+               [mkskip (Some (fst junk), Some (snd junk)) [106%N] true] [] [];
+     match staged_text l10n a with Some t => Ok t | None => Raise AssertionError end) = Ok staged /\
+    (do es <- walk_ini staged; Ok (map e_span (filter (is_kind KJunk) es))) = Ok [(6, 13)].
+Proof.
+  exists ini_junk_l10n,
+    [91;83;116;114;105;93; 59;32;120;32;105;116;10;
+     109;101;110;117;51;61;105;116;32;100;101;108;116;97;10; 10]%N, (6, 11).
+  repeat split; vm_compute; reflexivity.
+Qed.
+
+(* [S] / ;c / a=1 / b=2 / c=3 (no final newline); b selected, d missing *)
+Example C04_reparse_ini_example :
+  let bs := [ISection [83%N] true; IEntity [(59%N, [99%N])] [97%N] [49%N] true;
+             IEntity [] [98%N] [50%N] true; IEntity [] [99%N] [51%N] false] in
+  let abs := [IEntity [(35%N, [100%N])] [100%N] [52%N] false; IEntity [] [98%N] [57%N] true] in
+  let sel := str_eqb [98%N] in
+  let refs := [([98%N], ientity_all (IEntity [] [98%N] [57%N] true));
+               ([100%N], ientity_all (IEntity [(35%N, [100%N])] [100%N] [52%N] false))] in
+  let skips := parse_skips sel (ifile_text bs) (ientries_of bs) in
+  forallb legal_iblockb bs = true /\ iadjacent_okb bs = true /\
+  walk_ini (ifile_text bs) = Ok (ientries_of bs) /\
+  skips = [mkskip (Some 11, Some 14) [98%N] false] /\
+  forallb (fun b => iis_entity b && legal_iblockb b) abs = true /\
+  map_result (ref_all str_eqb refs) ([[100%N]] ++ filter sel (map irkey (irecords_of bs)))
+    = Ok (map ientity_all abs) /\
+  starts_with_section bs = true /\
+  merge str_eqb true caps_ini (ifile_text bs) skips [[100%N]] refs
+    = Ok (Write (ifile_text (imerged_blocks sel bs abs))) /\
+  ifile_text (imerged_blocks sel bs abs) =
+    [91;83;93;10; 59;99;10;97;61;49;10; 10; 99;61;51;10; 35;100;10;100;61;52;10; 98;61;57;10]%N /\
+  (do es' <- walk_ini (ifile_text (imerged_blocks sel bs abs));
+   Ok (map (entity_record (ifile_text (imerged_blocks sel bs abs))) (filter (is_kind KEntity) es'),
+       filter (is_kind KJunk) es'))
+  = Ok ([([97%N], [49%N], Some [59;99]%N); ([99%N], [51%N], None);
+         ([100%N], [52%N], Some [35;100]%N); ([98%N], [57%N], None)], []).
+Proof. cbv zeta. repeat split; vm_compute; reflexivity. Qed.
+
+(* ==== C04_reparse_dtd ===============================================================
+   The re-parse clause for DTD, from C02BlocksDtd.blocks_dtd(_bom) /
+   C02_roundtrip_dtd_multi(_bom).  [mark]: the file starts with a byte order mark (the
+   parser skips it, merge keeps it: it is outside every span).  [bs]: the localization as
+   a legal block list (whitespace, standalone comments, declarations with an attached
+   comment, parameter entities); skips: any permutation of the selected entities of its
+   own parse with that parse's spans (a declaration <!ENTITY ... > without its attached
+   comment, or a whole parameter-entity block - the block-boundary premise); [abs]: the
+   appended reference entities, ordinary legal declarations (Entity.all = the block text,
+   which ends in ">", so ensureNewline adds the line break; DTD would not need it).  The
+   staged text is mark + the text of the legal block list [dmerged_blocks] and, when that
+   list is separated as the block grammar asks, parses to exactly the unselected entities
+   unchanged in order, then the reference entities, no junk.
+   The premise [adjacent_ok_bom mark (dmerged_blocks ...)] is decidable and needed:
+   an orphaned comment within one line break of a following declaration is attached to it
+   (C04_reparse_dtd_premise_needed: key and value are still right and there is no junk,
+   but the kept entity's attached comment changes); also the License rule at offsets 0/1
+   and the tail of a parameter entity depend on what follows.  Not covered: reference
+   parameter entities among the appended ones. *)
+Import C02BlocksDtdRx C02BlocksDtdPeRx C02BlocksDtd MergeReparseDtd.
+
+Theorem C04_reparse_dtd :
+  forall (mark : bool) (bs abs : list C02BlocksDtd.block) (sel : str -> bool) (missing : list str)
+         (refs : list (str * str)) (es : list entry) (skips : list (Merge.skip (K := str))),
+  Forall C02BlocksDtd.legal_block bs -> adjacent_ok_bom mark bs -> (mark = true -> bs <> []) ->
+  walk_dtd (file_text_bom mark bs) = Ok es ->
+  Permutation skips (parse_skips sel (file_text_bom mark bs) es) ->
+  Forall dlegal_ref abs ->
+  map_result (ref_all str_eqb refs) (missing ++ filter sel (map drkey (C02BlocksDtd.records_of bs)))
+    = Ok (map C02BlocksDtd.text abs) ->
+  adjacent_ok_bom mark (dmerged_blocks sel bs abs) ->
+  exists a t out es',
+    merge str_eqb true caps_dtd (file_text_bom mark bs) skips missing refs = Ok a /\
+    staged_text (file_text_bom mark bs) a = Some t /\
+    out = (if nonempty skips || nonempty missing then dmerged_blocks sel bs abs else bs) /\
+    t = file_text_bom mark out /\ Forall C02BlocksDtd.legal_block out /\ adjacent_ok_bom mark out /\
+    walk_dtd t = Ok es' /\
+    map (C02Blocks.entity_record t) (filter (C02Blocks.is_kind KEntity) es') =
+      filter (fun r => negb (sel (drkey r))) (C02BlocksDtd.records_of bs) ++ C02BlocksDtd.records_of abs /\
+    filter (C02Blocks.is_kind KJunk) es' = [].
+Proof. exact reparse_dtd. Qed.
+
+Theorem C04_reparse_dtd_premise_needed :
+  exists (bs abs : list C02BlocksDtd.block) (sel : str -> bool) refs,
+    Forall C02BlocksDtd.legal_block bs /\ adjacent_ok_bom false bs /\
+    Forall dlegal_ref abs /\
+    map_result (ref_all str_eqb refs) ([] ++ filter sel (map drkey (C02BlocksDtd.records_of bs)))
+      = Ok (map C02BlocksDtd.text abs) /\
+    C02BlocksDtd.adjacent_okb (dmerged_blocks sel bs abs) = false /\
+    C02BlocksDtd.records_of bs =
+      [([98%N], [60%N], Some (comment_text [99%N])); ([103%N], [120%N], None)] /\
+    (do a <- merge str_eqb true caps_dtd (C02BlocksDtd.file_text bs)
+               (parse_skips sel (C02BlocksDtd.file_text bs) (C02BlocksDtd.entries_of bs)) [] refs;
+     match staged_text (C02BlocksDtd.file_text bs) a with
+     | Some t => do es <- walk_dtd t;
+                 Ok (map (C02Blocks.entity_record t) (filter (C02Blocks.is_kind KEntity) es), has_junk es)
+     | None => Raise AssertionError
+     end)
+    = Ok ([([103%N], [120%N], Some (comment_text [99%N])); ([98%N], [121%N], None)], false).
+Proof.
+  exists [dw_bad; C02BlocksDtd.BBlank [10%N]; dw_good; C02BlocksDtd.BBlank [10%N]], [dw_ref],
+    (str_eqb [98%N]), [([98%N], C02BlocksDtd.text dw_ref)].
+  split; [repeat constructor|]. split; [vm_compute; reflexivity|].
+  split; [repeat constructor|]. repeat split; vm_compute; reflexivity.
+Qed.
+
+(* with a byte order mark:  BOM <!-- c --> / <!ENTITY a "1"> / <!ENTITY b '<'> / ;
+   b selected, d missing; the reference entities d and b are appended *)
+Example C04_reparse_dtd_example :
+  let B := C02BlocksDtd.BEntity in
+  let bs := [B (Some ([32;99;32]%N, [10%N])) [32%N] [97%N] [32%N] 34%N [49%N] [];
+             C02BlocksDtd.BBlank [10%N]; B None [32%N] [98%N] [32%N] 39%N [60%N] [];
+             C02BlocksDtd.BBlank [10%N]] in
+  let abs := [B None [32%N] [100%N] [32%N] 34%N [52%N] []; B None [32%N] [98%N] [32%N] 34%N [50%N] []] in
+  let sel := str_eqb [98%N] in
+  let refs := [([98%N], C02BlocksDtd.text (B None [32%N] [98%N] [32%N] 34%N [50%N] []));
+               ([100%N], C02BlocksDtd.text (B None [32%N] [100%N] [32%N] 34%N [52%N] []))] in
+  let l10n := file_text_bom true bs in
+  let skips := parse_skips sel l10n (entries_of_bom true bs) in
+  forallb C02BlocksDtd.legal_blockb bs = true /\
+  (C02BlocksDtd.separatedb bs && C02BlocksDtd.license_okb 1 bs = true) /\
+  walk_dtd l10n = Ok (entries_of_bom true bs) /\
+  skips = [mkskip (Some 28, Some 43) [98%N] false] /\
+  forallb (fun b => dis_entity b && C02BlocksDtd.legal_blockb b) abs = true /\
+  map_result (ref_all str_eqb refs) ([[100%N]] ++ filter sel (map drkey (C02BlocksDtd.records_of bs)))
+    = Ok (map C02BlocksDtd.text abs) /\
+  (C02BlocksDtd.separatedb (dmerged_blocks sel bs abs) &&
+   C02BlocksDtd.license_okb 1 (dmerged_blocks sel bs abs) = true) /\
+  merge str_eqb true caps_dtd l10n skips [[100%N]] refs
+    = Ok (Write (file_text_bom true (dmerged_blocks sel bs abs))) /\
+  hd 0%N (file_text_bom true (dmerged_blocks sel bs abs)) = bom /\
+  (do es' <- walk_dtd (file_text_bom true (dmerged_blocks sel bs abs));
+   Ok (map (C02Blocks.entity_record (file_text_bom true (dmerged_blocks sel bs abs)))
+           (filter (C02Blocks.is_kind KEntity) es'),
+       filter (C02Blocks.is_kind KJunk) es'))
+  = Ok ([([97%N], [49%N], Some (comment_text [32;99;32]%N)); ([100%N], [52%N], None);
+         ([98%N], [50%N], None)], []).
 Proof. cbv zeta. repeat split; vm_compute; reflexivity. Qed.
